@@ -59,8 +59,19 @@ def run(ctx):
         hist = []
         with quiet():
             if kind == "swc":
-                m = jx.read_swc("/repo/tests/swc_files/morph_minimal.swc", ncomp=rng.choice([1, 2]))
-                hist.append("read_swc")
+                if rng.random() < 0.5:
+                    m = jx.read_swc("/repo/tests/swc_files/morph_minimal.swc", ncomp=rng.choice([1, 2]))
+                    hist.append("read_swc")
+                else:
+                    # a tracing whose soma is ONE traced point (its radius function is built on another path of the reader)
+                    import os
+                    path = os.path.join(os.path.dirname(os.path.dirname(os.path.dirname(os.path.abspath(__file__)))), ".work", f"c18_sps_{os.getpid()}.swc")
+                    os.makedirs(os.path.dirname(path), exist_ok=True)
+                    with open(path, "w") as fh:
+                        fh.write("1 1 0 0 0 8 -1\n2 3 8 0 0 1 1\n3 3 20 0 0 1 2\n4 3 30 5 0 0.8 3\n5 3 30 -5 0 0.8 3\n6 3 40 -8 0 0.5 5\n")
+                    m = jx.read_swc(path, ncomp=rng.choice([1, 2]))
+                    os.remove(path)
+                    hist.append("read_swc(single-point soma)")
                 if rng.random() < 0.5:
                     m.branch(1).set_ncomp(3)
                     hist.append("branch(1).set_ncomp(3)")
